@@ -34,12 +34,13 @@ theorem trimL_spec (b : Bytes) : ∀ (fuel val vend : Nat) (log : Log), val ≤ 
           · exact a3 i (by omega) hi2
         · intro N hN hl
           exact a5 N hN (by simp [hl]; omega)
-      · simp only [trimL, hlt, hs, ↓reduceIte]
-        refine ⟨by omega, by omega, fun i a b => by omega, fun _ => by simpa using hs, ?_⟩
+      · have hs' : isSpace (b.getD val 0) = false := by simpa using hs
+        simp only [trimL, hlt, hs', Bool.false_eq_true, ↓reduceIte]
+        refine ⟨by omega, by omega, fun i a b => by omega, fun _ => by first | trivial | exact hs', ?_⟩
         intro N hN hl
         simp [hl]; omega
     · simp only [trimL, hlt, ↓reduceIte]
-      exact ⟨by omega, by omega, fun i a b => by omega, fun h => by omega, fun N _ h => h⟩
+      exact ⟨by omega, by omega, fun i a b => by omega, fun h => absurd h hlt, fun N _ h => h⟩
 
 theorem trimR_spec (b : Bytes) : ∀ (fuel val vend : Nat) (log : Log), val ≤ vend → vend - val ≤ fuel →
     val ≤ (trimR b fuel val vend log).1 ∧ (trimR b fuel val vend log).1 ≤ vend ∧
@@ -67,12 +68,13 @@ theorem trimR_spec (b : Bytes) : ∀ (fuel val vend : Nat) (log : Log), val ≤ 
           · exact a3 i hi1 (by omega)
         · intro N hN hl
           exact a5 N (by omega) (by simp [hl]; omega)
-      · simp only [trimR, hlt, hs, ↓reduceIte]
-        refine ⟨by omega, by omega, fun i a b => by omega, fun _ => by simpa using hs, ?_⟩
+      · have hs' : isSpace (b.getD (vend - 1) 0) = false := by simpa using hs
+        simp only [trimR, hlt, hs', Bool.false_eq_true, ↓reduceIte]
+        refine ⟨by omega, by omega, fun i a b => by omega, fun _ => by first | trivial | exact hs', ?_⟩
         intro N hN hl
         simp [hl]; omega
     · simp only [trimR, hlt, ↓reduceIte]
-      exact ⟨by omega, by omega, fun i a b => by omega, fun h => by omega, fun N _ h => h⟩
+      exact ⟨by omega, by omega, fun i a b => by omega, fun h => absurd h (by omega), fun N _ h => h⟩
 
 theorem Toks.drop_spaces {b : Bytes} : ∀ (n i j : Nat) (o : Bytes), Toks b i j o → i + n ≤ j →
     (∀ k, i ≤ k → k < i + n → isSpace (b.getD k 0) = true) → ∃ o', Toks b (i + n) j o' := by
